@@ -62,8 +62,9 @@ class CmdHead(object):
 
     def ord(self, I):
         cid = to_z3(self.c.id)
-        if not I.ctx.decide(_clen(cid) >= 1, 'cmd-nonempty'):
-            I.raise_('TypeError', 'ord() of empty bytes')
+        # A-CMD: commands are never empty (every producer prefixes the type byte; the forwarded ones were produced
+        # by a peer's _applyCommand)
+        I.ctx.assume(_clen(cid) >= 1)
         return _ctype(cid)
 
 
@@ -127,6 +128,9 @@ class ArgsV(object):
 class KwV(object):
     def __init__(self, cid):
         self.cid = cid
+
+    def kw_items(self, I):
+        return {'**': self}
 
 
 class LogCell(SList):
@@ -476,6 +480,10 @@ class SO(object):
             nx, mt, lr = g('raftNextIndex'), g('raftMatchIndex'), g('lastResponseTime')
             cl.append(('I4.maps', Implies(role == 2, And(*[And(Implies(Or(voters.bits[i], obs.bits[i]), And(nx.pres[i], mt.pres[i])),
                                                                 Implies(voters.bits[i], lr.pres[i])) for i in range(U)]))))
+        noop = g('noopIDx')
+        cl.append(('I7.leader-has-noop-index', Implies(role == 2, Not(noop.isnone) if isinstance(noop, Opt) else (noop is not None))))
+        wr = g('commandsWaitingReply')
+        cl.append(('I8.reply-ids-below-counter', And(*[Implies(p, i <= g('commandsLocalCounter')) for p, i, cb in wr.entries])))
         sn = g('selfNode')
         cl.append(('I5.readonly-follower', Implies(sn.isnone if isinstance(sn, Opt) else (sn is None), role == 0)))
         return cl
@@ -616,6 +624,7 @@ def pickle_loads(I, args, kw):
                 kind = 'other'
             return ctx.alloc(PList([kind, NodeId(n), NodeV(n)]))
         sh = _shape(cid)
+        ctx.assume(z3.And(sh >= 0, sh <= 2))
         if ctx.decide(sh == 0, 'cmd-bare-id'):
             return _fid(cid)
         if ctx.decide(sh == 1, 'cmd-id-args'):
